@@ -7,12 +7,14 @@ INCLUDE = ["C19", "C15"]
 UT = "synkit/CRN/Props/utils.py"
 CV = "synkit/CRN/Hypergraph/conversion.py"
 HG = "synkit/CRN/Hypergraph/hypergraph.py"
+ST = "synkit/CRN/Props/stoich.py"
 CLASSES = {}
 TRUSTED = ["A-nx-graph", "A-builtins (sorted: permutation ordered by key, stable; str() of a label uninterpreted)",
            "_as_bipartite on a DiGraph input returns that graph (the CRNHyperGraph branch is the exporter of C16)"]
-ASSUMPTIONS = ["numpy / scipy code (matrix filling, rank, SVD kernels, linear programmes) has no contract-level model in this engine: matrix entries, "
-               "rank, kernel dimensions and annihilation, and the conservative / consistent decisions are compared by the bounded twin with exact "
-               "rational linear algebra (sympy) and exact certificates; only the row/column indexing layer is proved"]
+ASSUMPTIONS = ["A-numpy (minimal): np.zeros((n, m), dtype=float) is a matrix indexable exactly at 0 <= i < n, 0 <= j < m with every entry 0.0, and M[i, j] += x changes "
+               "that entry only (matrices are modelled as mappings from index pairs to reals); floating-point rounding of the additions is not modelled",
+               "the rest of the numpy / scipy code (S = S+ - S-, rank, SVD kernels, linear programmes) has no contract-level model in this engine: rank, kernel dimensions and "
+               "annihilation, and the conservative / consistent decisions are compared by the bounded twin with exact rational linear algebra (sympy) and exact certificates"]
 
 
 def is_species(G, n):
@@ -33,6 +35,19 @@ def R(H, k, s):
 
 def P(H, k, s):
     return H.edges[k].products.data.get(s, 0)
+
+
+def rx_like(G, n):
+    return G.nodes[n].get("kind") == "reaction" or G.nodes[n].get("bipartite", None) == 1
+
+
+def cf(G, a, b, role):
+    """contribution of the arc a -> b (if present, with that role) to a matrix entry"""
+    return float(G[a][b].get("stoich", 1.0)) if (G.has_edge(a, b) and G[a][b].get("role") == role) else 0.0
+
+
+def shape_ok(M, n, m):
+    return forall(('int', 'int'), lambda i, j: ((i, j) in M) == (0 <= i and i < n and 0 <= j and j < m))
 
 
 FUNCTIONS = {
@@ -120,6 +135,45 @@ FUNCTIONS = {
                 "forall('any', lambda n: (n in reaction_index) == exists(range(done), lambda i: same(reaction_nodes_sorted[i], n)))",
                 "forall('any', lambda n: implies(n in reaction_index, n in reaction_nodes_sorted))",
                 "forall(range(done), lambda i: reaction_nodes_sorted[i] in reaction_index)"]},
+        },
+    },
+    # the reactant matrix S- and the product matrix S+ (numpy arrays, modelled as mappings from index pairs to reals: A-numpy): the entry in
+    # the row of a species node and the column of a reaction node is the consumed / produced coefficient of that species in that reaction
+    ST + "::build_S_minus_plus": {
+        "params": {"crn": "obj:DiGraph"},
+        "vars": {"S_minus": "dict[tuple[int,int],real]", "S_plus": "dict[tuple[int,int],real]", "species_index": "dict[any,int]", "reaction_index": "dict[any,int]",
+                 "species_order": "list[str]", "reaction_order": "list[str]"},
+        "returns": "tuple[list[str],list[str],dict[tuple[int,int],real],dict[tuple[int,int],real]]",
+        "requires": ["forall(crn.nodes, lambda n: not (is_species(crn, n) and rx_like(crn, n)))",
+                     "forall(crn.edges, lambda u, v: isinstance(crn[u][v].get('stoich', 1.0), (int, float)) and not isinstance(crn[u][v].get('stoich', 1.0), bool))"],
+        "modifies": [],
+        "raises": {"ValueError": "not exists(crn.nodes, lambda n: is_species(crn, n)) or not exists(crn.nodes, lambda n: is_reaction(crn, n))"},
+        "ensures": ["shape_ok(result[2], len(result[0]), len(result[1])) and shape_ok(result[3], len(result[0]), len(result[1]))"],
+        "ghost_ensures": [
+            # row of a species node, column of a reaction node: consumed / produced coefficient of that species in that reaction (arcs in either direction)
+            "forall((species_index, reaction_index), lambda s, r: result[2][(species_index[s], reaction_index[r])] == cf(crn, s, r, 'reactant') + cf(crn, r, s, 'reactant'))",
+            "forall((species_index, reaction_index), lambda s, r: result[3][(species_index[s], reaction_index[r])] == cf(crn, s, r, 'product') + cf(crn, r, s, 'product'))",
+            "forall('any', lambda n: (n in species_index) == (crn.has_node(n) and is_species(crn, n)))",
+            "forall('any', lambda n: (n in reaction_index) == (crn.has_node(n) and is_reaction(crn, n)))",
+        ],
+        "loops": {
+            1: {"modifies": [],
+                "facts": [
+                    "forall('any', lambda n: (n in species_index) == (G.has_node(n) and is_species(G, n)))",
+                    "forall('any', lambda n: (n in reaction_index) == (G.has_node(n) and is_reaction(G, n)))",
+                    "forall(species_index, lambda n: 0 <= species_index[n] and species_index[n] < n_species)",
+                    "forall(reaction_index, lambda n: 0 <= reaction_index[n] and reaction_index[n] < n_reactions)",
+                    "forall((species_index, species_index), lambda n, m: implies(not same(n, m), species_index[n] != species_index[m]))",
+                    "forall((reaction_index, reaction_index), lambda n, m: implies(not same(n, m), reaction_index[n] != reaction_index[m]))",
+                    "n_species == len(species_order) and n_reactions == len(reaction_order)",
+                ],
+                "inv": [
+                    "shape_ok(S_minus, n_species, n_reactions) and shape_ok(S_plus, n_species, n_reactions)",
+                    "forall((species_index, reaction_index), lambda s, r: S_minus[(species_index[s], reaction_index[r])] == "
+                    "       (cf(G, s, r, 'reactant') if (s, r) in done else 0.0) + (cf(G, r, s, 'reactant') if (r, s) in done else 0.0))",
+                    "forall((species_index, reaction_index), lambda s, r: S_plus[(species_index[s], reaction_index[r])] == "
+                    "       (cf(G, s, r, 'product') if (s, r) in done else 0.0) + (cf(G, r, s, 'product') if (r, s) in done else 0.0))",
+                ]},
         },
     },
 }
